@@ -9,8 +9,8 @@ namespace MayVerif.Local
   | _ => true
 /-- the generator may carry a `para` that the coroutine is about to consume -/
 @[grind] def carrying : Pc → Bool
-  | .shortcut _ => true
-  | .resumed a | .post a => hasTimer a || cancelRegistered a
+  | .shortcut _ _ => true
+  | .resumed _ a | .post _ a => hasTimer a || cancelRegistered a
   | _ => false
 
 /-- values and maps -/
@@ -32,7 +32,7 @@ structure InvP (s : St) : Prop where
   g5 : ∀ g, s.sh.nextG ≤ g → s.sh.para g = none
   p1 : ∀ c, live (s.pcs c) = true → carrying (s.pcs c) = false → s.sh.para (s.sh.gen c) = none
   p2 : ∀ c, live (s.pcs c) = true → s.sh.para (s.sh.gen c) = some .canceled → s.sh.cancelBit c = true
-  p3 : ∀ c, s.pcs c ≠ .shortcut .send ∧ s.pcs c ≠ .yielding .send
+  p3 : ∀ c u, s.pcs c ≠ .shortcut u .send ∧ s.pcs c ≠ .yielding u .send
 
 theorem invV_init : InvV init := by
   constructor <;> simp [init]
